@@ -38,6 +38,8 @@ type Check struct {
 	Custom func(env *Env) *Summary
 	// RequiredCounters must be non-zero after a complete run (vacuity guards).
 	RequiredCounters []string
+	// Post may inspect the aggregated summary (e.g. compare shard hashes of two passes).
+	Post func(sum *Summary)
 }
 
 var registry = map[string]*Check{}
@@ -78,6 +80,16 @@ type Ctx struct {
 	lastViolIx uint64
 	hasViol    bool
 	Verbose    bool // replay mode: keep every violation with full detail
+	xh         uint64
+	xhUsed     bool
+}
+
+// ShardHash folds h into an order-sensitive hash of everything the current
+// shard observed; the coordinator can compare it between two passes over the
+// same shard in different processes (cross-process determinism).
+func (c *Ctx) ShardHash(h uint64) {
+	c.xhUsed = true
+	c.xh = (c.xh<<7 | c.xh>>57) ^ h*0x9e3779b97f4a7c15
 }
 
 const maxViolPerShard = 40
